@@ -905,9 +905,16 @@ class PeriodicCallback:
         self.jitter = jitter
         self._running = False
         self._timeout: object = None
+        # True while an invocation of the callback is in progress.
+        self._callback_active = False
 
     def start(self) -> None:
         """Starts the timer."""
+        if self._timeout is not None:
+            # Already started: replace the pending timer instead of
+            # adding a second one.
+            self.io_loop.remove_timeout(self._timeout)
+            self._timeout = None
         # Looking up the IOLoop here allows to first instantiate the
         # PeriodicCallback in another thread, then start it using
         # IOLoop.add_callback().
@@ -931,8 +938,14 @@ class PeriodicCallback:
         return self._running
 
     async def _run(self) -> None:
-        if not self._running:
+        # The timer that called us has fired.
+        self._timeout = None
+        if not self._running or self._callback_active:
+            # Stopped; or restarted while an invocation is still in
+            # progress, in which case that invocation schedules the
+            # next one when it ends.
             return
+        self._callback_active = True
         try:
             val = self.callback()
             if val is not None and isawaitable(val):
@@ -940,7 +953,11 @@ class PeriodicCallback:
         except Exception:
             app_log.error("Exception in callback %r", self.callback, exc_info=True)
         finally:
-            self._schedule_next()
+            self._callback_active = False
+            if self._timeout is None:
+                # (unless the callback was restarted in the meantime
+                # and has a timer pending already)
+                self._schedule_next()
 
     def _schedule_next(self) -> None:
         if self._running:
